@@ -220,8 +220,6 @@ Theorem C06_forbidden_only_on_mismatch :
 Proof. exact forbidden_only_on_mismatch. Qed.
 Print Assumptions C06_forbidden_only_on_mismatch.
 
-Definition open_site (a h : string) : site := mkS (bs a) (mkT (bs h) true TLS12 TLS13 [] [] [] true 0 [] false).
-Definition mtls_site (a h : string) : site := mkS (bs a) (mkT (bs h) true TLS12 TLS13 [] [] [] true 2 [] false).
 
 (* The stronger reading of the clause: the handshake of a request served by a site that demands
    client certificates was governed by settings equal to that site's own (hence the same
@@ -264,12 +262,6 @@ Qed.
    real server, corpus/C06): empty SNI + empty Host with a local-IP site; a Host whose name is
    normalised once more by the router than by the strict test ([b:80]:90); 0.0.0.0 and ::
    sharing the catch-all key without the compatibility assert. *)
-Definition served_under_foreign_policy (sites : list site) (dflt : bytes) (conn : option bytes)
-           (sni rhost : bytes) : Prop :=
-  exists g v s k i c b,
-    make_tls_config (default_ciphers true) [] (map (fun s => Some (s_tls s)) sites) = MkGroup g /\
-    serve sites (Some sni) rhost = Served v /\ nth_error sites v = Some s /\ demands (s_tls s) = true /\
-    get_config g dflt conn sni = Found k (i, c, Some b) /\ b_cauth b <> cauth (s_tls s).
 
 
 Theorem C06_clientauth_policy_governs_refuted_empty_names :
